@@ -93,6 +93,7 @@ type SCG struct {
 	acq        []acqEdge
 	unknownHOF map[string]int
 	problems   []string
+	cut        map[*FuncNode]bool // functions the propagation does not enter (contexts "not through these")
 }
 
 type ctxFrom struct {
@@ -558,7 +559,7 @@ func (g *SCG) propagate() {
 	}
 	var work []item
 	push := func(fn *FuncNode, held uint, from *FuncNode, fromHeld uint, how string) {
-		if fn == nil || fn.Body == nil {
+		if fn == nil || fn.Body == nil || g.cut[fn] {
 			return
 		}
 		m := g.ctxs[fn]
